@@ -72,13 +72,13 @@ def stepObs (r : RState) (o : Obs) : Except String RState :=
       if s.pc t ≠ .idle then .error s!"call while the model thread is at {showPc (s.pc t)}"
       else if !k.paired r.c then .error s!"client contract: call {reprStr k} violates the pairing rules of this run"
       else if !mayStartB r.c r.y t k then .error s!"client contract: {reprStr k} overlaps an operation it must not overlap"
-      else .ok { r with y := { s := s.setPc t k.entry, cur := upd r.y.cur t (some k) } }
+      else .ok { r with y := { s := s.setPc t k.entry, cur := upd r.y.cur t (some k), start := upd r.y.start t s.idx } }
   | some (.ev ("ret" :: name :: rest)) =>
     match s.pc t, r.y.cur t with
     | .retd res, some k =>
       if callName k ≠ name then .error s!"returned from {name}, model thread runs {callName k}"
       else if callHasResult k && rest ≠ [toString res] then .error s!"{name} returned {rest}, model says {res}"
-      else .ok { r with y := { s := s.setPc t .idle, cur := upd r.y.cur t none } }
+      else .ok { r with y := { r.y with s := s.setPc t .idle, cur := upd r.y.cur t none } }
     | p, _ => .error s!"implementation returned from {name} but the model thread is at {showPc p}"
   | some (.ev ("ORACLE" :: _)) | some (.ev ("stats" :: _)) => .ok r
   | some (.spawn _) | some (.join _) | some .exit | some (.race _) => .ok r
